@@ -111,9 +111,19 @@ def red_obligations(prog):
                 obs.append(Obligation("R-RED", oid, locs[0], fn, text, False,
                                       "reducing decode at %s of bytes rooted in parameter %s of %s, which has no listed role; use the overflow-checked form"
                                       % (", ".join(sorted(set(locs))), p, fn)))
-    stale = sorted(set(roles) - used - {"_comment"})
-    if stale:
-        raise AnalysisBroken("R-RED: role table entries match no reducing decode any more: %s" % ", ".join(stale))
+    # a listed role whose bytes are no longer decoded by reduction: the specification makes every such string valid
+    # (messages >= n, ElligatorSwift encodings, values defined modulo n), so range-checking or dropping the decode deviates
+    for key in sorted(set(roles) - used - {"_comment"}):
+        fn, rest = key.split(":", 1)
+        f = prog.functions.get(fn)
+        if f is None:
+            raise AnalysisBroken("R-RED: function %s of the role table vanished" % fn)
+        p, off = rest.split("@")
+        kinds = sorted({k2 for (f2, p2, k2) in cur if f2 == fn and p2 == p})
+        obs.append(Obligation("R-RED", "R-RED:%s:reduced" % key, f.loc, fn,
+                              "bytes %s[%s] must keep being decoded by reduction: %s" % (p, off, roles[key]), False,
+                              "no reducing decode of %s[%s] is reachable from %s any more (kinds now reaching %s: %s) — values >= the modulus would be rejected or mis-handled"
+                              % (p, off, fn, p, ", ".join(kinds) or "none")))
     return obs, {"roles": len(roles) - 1}
 
 
